@@ -102,6 +102,7 @@ func main() {
 			rr.nfuncs = p.NFuncs
 			rr.npkgs = len(p.Pkgs)
 			c := NewCtx(p, spec.ID)
+			c.Tier = *tier
 			spec.Run(c)
 			rr.obs = append(rr.obs, c.Obs...)
 			for k := range c.Analysed {
